@@ -33,6 +33,10 @@ pub fn check_source(rep: &mut Report, prop: &str, src: &dyn Source, truth: &Trut
         });
         got.sort();
         let want = truth.children(d);
+        if truth.lenient {
+            // what the unrepresentable names turn into is not specified
+            got.retain(|g| want.contains(g));
+        }
         match r {
             Err(e) => bad(rep, "directory-unreadable", json!({"dir": d, "error": e.to_string(), "kind": format!("{:?}", e.kind())})),
             Ok(()) => {
@@ -259,7 +263,7 @@ fn gen_embed(args: &Args, mut rep: Report) -> Report {
         specs.insert(
             format!("tree{i}"),
             json!({"files": truth.files.iter().map(|((id, ext), c)| json!([id, ext, c])).collect::<Vec<_>>(),
-                   "dirs": truth.dirs, "describe": t.describe()}),
+                   "dirs": truth.dirs, "lenient": truth.lenient, "describe": t.describe()}),
         );
         main.push_str(&format!(
             "    run.check({i}, &Embedded::from(embed!({:?})));\n",
@@ -316,6 +320,7 @@ impl EmbedRun {
         for (i, f) in self.checks {
             let spec = &specs[&format!("tree{i}")];
             let mut truth = Truth::default();
+            truth.lenient = spec["lenient"].as_bool().unwrap_or(false);
             for f in spec["files"].as_array().unwrap() {
                 let bytes: Vec<u8> = f[2].as_array().unwrap().iter().map(|b| b.as_u64().unwrap() as u8).collect();
                 truth.files.insert((f[0].as_str().unwrap().to_string(), f[1].as_str().unwrap().to_string()), bytes);
